@@ -152,7 +152,11 @@ func runCase(t *testing.T, dir string, cs *caseSpec) (out []obs, done []action, 
 				case "finish":
 					return w.inCb == a.Idx && a.Idx >= 0
 				case "fire":
-					return true
+					// While a requester sits in its callback the lock is held. On the code as it is no
+					// timer can be armed then (Sleep arms it when it finishes, Wake stops it before its
+					// callback), so nothing is lost; if a change made one fire here, Poll would wait on
+					// the mutex, which synctest does not treat as durably blocked (deadlock panic).
+					return w.inCb == -1
 				case "pollend":
 					return w.inCb == -1 && a.Idx >= 0 && a.Idx < len(w.pollOpen) && w.pollOpen[a.Idx]
 				}
@@ -431,8 +435,8 @@ func TestVerif(t *testing.T) {
 			"sleep finish0 fire pollend0 fire pollend1 wake finish1",
 			// refusals
 			"sleep finish0 sleep wake finish2 wake",
-			// timer fires while Wake holds the lock in its callback
-			"sleep finish0 wake fire finish1",
+			// wake completes, time passes (no timer must be left), sleep again and poll
+			"sleep finish0 wake finish1 fire sleep finish2 fire pollend0",
 		} {
 			cs := parse(w)
 			cs.Why = "witness"
@@ -464,40 +468,42 @@ func TestVerif(t *testing.T) {
 		}
 		c.Res.Extra["exhaustive"] = true
 		c.Res.Extra["exhaustive_depth"] = depth
-		// random longer schedules, extended action by action from what is enabled
-		n := c.N(120, 4000)
+		// random longer schedules, extended action by action from what the implementation says is enabled
+		n := c.N(150, 5000)
+		probeDir := filepath.Join(base, "probe")
+		os.MkdirAll(probeDir, 0o755)
 		for i := 0; i < n; i++ {
 			r := c.Rand.Fork()
 			var seq []action
-			length := 7 + r.Intn(8)
-			en := []action{{Kind: "sleep"}}
+			length := 8 + r.Intn(9)
+			en := []action{{Kind: "sleep"}, {Kind: "wake"}, {Kind: "fire"}}
 			for len(seq) < length && len(en) > 0 {
-				// bias: finish quickly, fire often
-				var pick action
-				w := r.Intn(10)
-				var fin, pe []action
+				var fin, pe, other []action
 				for _, a := range en {
-					if a.Kind == "finish" {
+					switch a.Kind {
+					case "finish":
 						fin = append(fin, a)
-					}
-					if a.Kind == "pollend" {
+					case "pollend":
 						pe = append(pe, a)
+					default:
+						other = append(other, a)
 					}
 				}
+				var pick action
+				w := r.Intn(10)
 				switch {
-				case len(fin) > 0 && w < 6:
+				case len(fin) > 0 && w < 7:
 					pick = fin[0]
-				case len(pe) > 0 && w < 4:
+				case len(pe) > 0 && w < 3:
 					pick = pe[r.Intn(len(pe))]
-				case w < 7:
-					pick = action{Kind: "fire"}
+				case len(other) > 0:
+					pick = other[r.Intn(len(other))]
 				default:
 					pick = en[r.Intn(len(en))]
 				}
 				seq = append(seq, pick)
 				if len(seq) < length {
-					// cheap local bookkeeping is not enough to know what is enabled: ask the implementation at the end only
-					en = nextEnabled(seq)
+					_, _, en, _ = runCase(t, probeDir, &caseSpec{Actions: append([]action(nil), seq...)})
 				}
 			}
 			do(&caseSpec{Actions: seq})
@@ -511,36 +517,3 @@ func TestVerif(t *testing.T) {
 	c.WriteCasesV("cases.v", sb.String())
 }
 
-// nextEnabled over-approximates the enabled actions from the schedule text
-// alone (requesters alternate start/finish; polls can only be ended once);
-// actions that turn out not to be enabled are dropped when the case runs.
-func nextEnabled(seq []action) []action {
-	inCb := -1
-	nReq := 0
-	fires := 0
-	ended := map[int]bool{}
-	for _, a := range seq {
-		switch a.Kind {
-		case "sleep", "wake":
-			inCb = nReq // may have been refused; the real run decides
-			nReq++
-		case "finish":
-			inCb = -1
-		case "fire":
-			fires++
-		case "pollend":
-			ended[a.Idx] = true
-		}
-	}
-	var en []action
-	if inCb >= 0 {
-		en = append(en, action{Kind: "finish", Idx: inCb})
-	}
-	en = append(en, action{Kind: "sleep"}, action{Kind: "wake"}, action{Kind: "fire"})
-	for k := 0; k < fires; k++ {
-		if !ended[k] {
-			en = append(en, action{Kind: "pollend", Idx: k})
-		}
-	}
-	return en
-}
